@@ -105,6 +105,7 @@ def _programs(tier, seed):
         'killcmd_bare': [S(['cont', [], {}], yields=1), S(['kill', None], sync=True)],  # the bare Kill() command: no message at all
         'single': [S(['value', None], sync=True)],
         'misuse': [S(['cont', [], {}], sync=True), S(['misuse', 'v'], yields=1)],  # ends EXCEPTED with plumpy's own EventError
+        'badchild': [S(['cont', [], {}], yields=1), S(['badchild'], sync=True)],  # ends EXCEPTED with plumpy's own PortValidationError inside a ValueError
         'two_waits': [S(['wait', 'a', {'x': 1}], sync=True), S(['wait', 'b', None], yields=1), S(['value', 0], sync=True)],
     }
     progs = {k: {'steps': v} for k, v in P.items()}
